@@ -18,7 +18,7 @@ PROPS = {
                     "file ids are numbered in the order of the file locations, so the model's key order is the string order "
                     "graph.StableTopologicalSort uses"],
         "assumptions": ["local files only (no remote nodes); include paths, dirs and vars are literal (no templates); "
-                        "task and namespace names contain no ':'; one load error kind is injected per tree at most",
+                        "task and namespace names contain no ':'; one load error kind is injected per tree at most (several: C09's domains)",
                         "C08_present is stated over the include graph the reader built (Reach); that every include statement "
                         "of a reachable file becomes an edge is checked by the correspondence, not proved"],
         "level_text": "Theorems (all include graphs, every topological order and per-edge include order): every non-excluded task "
@@ -29,12 +29,18 @@ PROPS = {
                       "C08_root_ref_graph for the whole-graph merge; the renaming rule itself is pinned in the regenerated Gen.Load "
                       "by root_ref_rule_in_source); every field survives the copy (C08_attrs over Gen.Fields); name clash, "
                       "cycle, missing file, version mismatch, dotenv are errors and keys stay distinct (C08_conflict, "
-                      "C08_no_overwrite[_graph], C08_cycle, C08_missing, C08_version, C08_dotenv, C08_loaded_is_acyclic). "
+                      "C08_no_overwrite[_graph], C08_cycle, C08_missing, C08_version, C08_dotenv, C08_loaded_is_acyclic); the keys of EVERY "
+                      "loaded table are pairwise distinct without hypothesis on the files (C08_no_overwrite_load: a key used twice in tasks / "
+                      "includes / vars / env is a decode error, C08_duplicate_key, duplicate_key_rule_in_source); the file-level defaults of an "
+                      "included Taskfile (method, run, silent, set, shopt) go with its tasks (C08_file_defaults, idempotent), 'as in its own "
+                      "file' holds wherever the task or its file declares the option (C08_defaults_partial; the unconditional statement is "
+                      "false: C08_defaults_full_counterexample), an include never replaces the root's output style (C08_output_kept). "
                       "Tie: generated include trees loaded through Executor.Setup, merged table, global vars, error class and a "
                       "CompiledTask probe compared with the model's load; trees with ':'-references are also compared with the "
                       "independent root-reference monitor load.refs.",
         "level_note": "Trusted: Lean kernel; harness serialiser/decoder (round-trip checked per case); id order = location order. "
-                      "The two former ':'-reference findings (depth >= 2, flatten) are fixed by F32; their witnesses are in the corpus.",
+                      "The two former ':'-reference findings (depth >= 2, flatten) are fixed by F32; duplicate keys, dropped file-level defaults "
+                      "and the overriding output style by fixes/l8 0001, 0004-0006 (05e13c6, -4, -5, -6); witnesses are in the corpus.",
     },
     "C09": {
         "lean": "Props.C09",
@@ -55,23 +61,40 @@ PROPS = {
                       "all_sites_classified over the regenerated Gen.NondetSites; edges_in_declaration_order over Gen.Load; "
                       "C09_dotenv_order_indep: the templated values of a global dotenv file (variables and command environment) are the same for "
                       "every order in which godotenv's map hands out the entries (dotenv_sites_sorted pins the sorted loops). "
-                      "Tie: every generated tree is loaded repeatedly in one process; all dumps must coincide and equal the model.",
+                      "C09_read_error_schedule_indep: with several files in error, whatever the concurrent read met first in time, Reader.Read "
+                      "returns the outcome of the sequential read in declaration order, error included (firstError_eq: the walk over the "
+                      "recorded results reports exactly the error of the model's visit; first_error_walk_in_source and "
+                      "Sites.readErrorIsCanonical pin the walk, the records and Read's error branch; every errgroup whose error is used on the "
+                      "load path is a classified site). Tie: every generated tree is loaded repeatedly in one process; all dumps must coincide "
+                      "and equal the model; 30 % of the trees carry two or three load errors of different kinds (siblings, nested, a file "
+                      "reached along two paths).",
         "level_note": "Trusted: Lean kernel; extractor's syntactic map typing; harness. Sampled: runtime schedules (the theorem "
                       "quantifies over all of them for the canonical schedule).",
     },
     "C15": {
         "lean": "Props.C15",
-        "domains": [{"name": "resolve"}, {"name": "loadresolve"}],
-        "trusted": ["Go regexp's leftmost-first semantics for `^lit(.*)lit…$` is what Resolve.Glob mirrors; "
-                    "sajari/fuzzy ranking is an oracle (only 'a suggestion exists' is checked)"],
+        "domains": [{"name": "resolve"}, {"name": "loadresolve"}, {"name": "resolverun"}, {"name": "suggest"}],
+        "trusted": ["Go regexp's leftmost-first semantics for `(?s)^lit(.*)lit…$` is what Resolve.Glob mirrors; "
+                    "sajari/fuzzy's RANKING is not modelled: Resolve.Suggest.classify is an oracle over proved edit distances "
+                    "(exactly one / several words of >= 4 characters within two edits => that word / one of them; nothing within three "
+                    "edits or a request more than two characters longer than every word => none), read off the library's three lookup "
+                    "steps and valid for the generator's alphabet (lower-case ASCII without s / y)"],
         "assumptions": ["names are valid UTF-8; resolution table built in memory through ast.Tasks.Set"],
         "level_text": "Theorems (all names, patterns, tables): matcher soundness/completeness/greediness, only '*' special, "
                       "exact > first wildcard in table order > unique alias, ambiguity = 203, unknown = 200. Tie: ast.Task.WildcardMatch and "
                       "Executor.GetTask are run on generated tables over an alphabet with regexp metacharacters and must equal the model. "
                       "Second tie (loadresolve): the tables that includes produce — generated include trees (nesting, flatten, namespace aliases, "
                       "task aliases, default tasks, excludes) are loaded by the real executor and asked for names along every namespace / alias path "
-                      "plus near misses; GetTask's answer must equal Resolve.resolve applied to the Load model's merged table.",
-        "level_note": "Trusted: Lean kernel; harness canonicalisation; Go regexp semantics for the quoted pattern; fuzzy suggestion is an oracle.",
+                      "plus near misses; GetTask's answer must equal Resolve.resolve applied to the Load model's merged table; the files carry overlapping wildcard "
+                      "task names in root, included and flattened files (C15_parent_first + C15_parent_first_load: the root file's tasks are a "
+                      "prefix of every loaded table, so its patterns win), requests instantiate them and the rendered {{.MATCH}} of a compiled "
+                      "command is compared. The matcher theorems hold for ALL strings (newline included, since (?s): C15_match_complete, "
+                      "C15_match_iff) and greediness for every group (C15_match_greedy). Third tie (resolverun): Executor.Run on Taskfiles in "
+                      "which other tasks do not fast-compile: the first request that does not resolve decides the error and nothing runs "
+                      "(C15_unknown_nothing_runs, run_unknown_in_source). Fourth tie (suggest): DidYouMean after a real Setup is judged by the "
+                      "edit-distance oracle (C15_suggestion_closest, C15_suggestion_one_of_the_close, C15_no_suggestion_when_far; "
+                      "EditDist.lev_le_iff; suggestions_in_source).",
+        "level_note": "Trusted: Lean kernel; harness canonicalisation; Go regexp semantics for the quoted pattern; the suggestion oracle (which class demands what) — the ranking among several close names is not modelled.",
     },
     "C07": {
         "lean": "Props.C07",
@@ -230,8 +253,9 @@ PROPS = {
         "lean": "Props.C04",
         "domains": [{"name": "fingerhist-c04"}],
         "cli": True,
-        "trusted": ["the hash (xxh3-128) is uninterpreted: theorems speak of the byte stream fed to it; the harness checks that every stored "
-                    "checksum is xxh3 of the model's stream; what one glob pattern matches (mvdan/sh expansion) is an oracle",
+        "trusted": ["the hashes (xxh3-128 of the stream, xxh3-64 of its length table) are uninterpreted: theorems speak of the bytes fed to them; the "
+                    "harness checks that every stored checksum is xxh3 of the model's stream followed by xxh3 of the model's length table; what one glob "
+                    "pattern matches (mvdan/sh expansion) is an oracle",
                     "the harness's copy of the goodRun monitor is tied to the Lean definition by comparing its verdict (g=) on every step"],
         "assumptions": ["status: commands are `test -f`, commands only write their declared files and append to a trace; no deps, "
                         "no preconditions; sub-task calls only in the form `task: helper` where the helper has one `test -f` precondition and one command "
@@ -239,8 +263,10 @@ PROPS = {
                         "below the task directory (no `..`), so the name hashed with a file (its path relative to t.Dir) is its root-relative "
                         "path without the `dir/` prefix"],
         "level_text": "Theorems over TaskModel.Finger.invoke (mirror of RunTask / IsTaskUpToDate / Checksum- and TimestampChecker, the latter as "
-                      "patched by TS1-TS3 and fix M, state file names as by fix N): C04_partial (method checksum, pairwise distinct display names - "
-                      "names that merely normalise alike have distinct state files, stateKey_inj -, histories of any length made of "
+                      "patched by TS1-TS3 and fix M, state file names as by fix N and fix F8A): C04_partial (method checksum, NO hypothesis beyond pairwise "
+                      "distinct task names, which every Taskfile has - names that merely normalise alike have distinct state files, stateKey_inj; "
+                      "tasks with equal labels, or a label equal to another task's name, have distinct checksum files, sumKey_inj: the file is a "
+                      "function of the pair (task name, label) -, histories of any length made of "
                       "successful runs, runs failing in the command loop, runs cancelled at the prompt, --dry, --status, --force, list/summary "
                       "queries and arbitrary file edits: skip implies goodRun), C04_partial_timestamp_general (the same histories for ANY "
                       "method-timestamp task, distinct task names, non-decreasing clock: skip implies goodRun or a generates file newer than the "
@@ -251,14 +277,15 @@ PROPS = {
                       "nothing - no marker moved, none created -, so a source written after the last run is rebuilt however many checks lay in "
                       "between), "
                       "C04_timestamp_skip_generates_exist, and decide-checked counterexamples to C04_full over the patched model (kill for both "
-                      "methods, equal labels, method timestamp: never ran / failed run / generates "
+                      "methods, method timestamp: never ran / failed run / generates "
                       "rewritten by others - one root: a generates file as new as the sources vouches on its own). Tie: Gen.DryWiring / "
-                      "Gen.FingerOrder tables (incl. the definitions of the timestamp verdict variables, the touchMarker closure and "
-                      "stateFilename) proved equal to the skeleton the "
+                      "Gen.FingerOrder tables (incl. the definitions of the timestamp verdict variables, the touchMarker closure, "
+                      "stateFilename and checksumFilename) proved equal to the skeleton the "
                       "model was written against; random histories through the real CLI binary compared step by step (exit class, commands run, "
                       "tree incl. .task) with the model; the property monitor skip⇒goodRun evaluated on the real observations.",
         "level_note": "Trusted: Lean kernel; harness canonicalisation (mtimes rebased to a logical clock; state file names mapped back by recomputing "
-                      "xxh3 of the generated names); hashes uninterpreted (the 64-bit name hash of stateFilename idealised as injective); glob "
+                      "xxh3 of the generated names and (name, label) pairs); hashes uninterpreted (the 64-bit name hashes of stateFilename / "
+                      "checksumFilename idealised as injective); glob "
                       "expansion is an oracle.",
     },
     "C05": {
@@ -266,18 +293,28 @@ PROPS = {
         "domains": [{"name": "globs"}, {"name": "fingerhist-c05"}],
         "cli": True,
         "trusted": ["mvdan/sh glob semantics is an oracle (per-pattern match sets come from the real expander run on that pattern alone)",
-                    "hash uninterpreted; fingerprint inequality needs the explicit hypothesis HashInj on the two streams involved"],
+                    "hashes uninterpreted; fingerprint inequality needs the explicit hypothesis FpInj (no collision) on the two (stream, length table) "
+                    "pairs involved"],
         "assumptions": ["as C04; timestamp idempotence under the side conditions 'no source newer than the last run', 'the generates exist' and "
                         "(since TS2 touches the marker only when the timestamp check itself asks for the run) 'the status commands did not fail "
                         "before that run'"],
         "level_text": "Theorems: C05_globs (for every pattern list and file set: p ∈ Globs ⇔ the last pattern matching p is positive; result strictly "
-                      "sorted), C05_idem (both methods), C05_force, C05_missing_generates (both methods since TS1), C05_status_fails, C05_detect_checksum (edit/add/remove/"
-                      "rename-in-place change the stream), C05_detect_move / C05_detect_move_op (the hashed name is the path relative to the task dir, "
-                      "injective on matched paths: a move or rename to another path changes the stream), C05_mtime, and "
-                      "C05_counterexample_undelimited (name and content hashed without delimiter) with C05_detect_partial, "
+                      "sorted), C05_idem (both methods), C05_force, C05_missing_generates (both methods since TS1), C05_status_fails, C05_detect_full_inj (FULL "
+                      "detection since fix F8B: the byte stream - names and contents back to back - together with the length table - the length of every "
+                      "name and content, 8 bytes each, fed to a second hash - is an injective encoding of the list of (name, content), stream_lenTable_inj; "
+                      "so for every project with injective names, i.e. every project since F8, different lists of (path, content) of the matched files give "
+                      "a different stream or a different length table: any edit, addition, removal, rename or move and any combination of them) and "
+                      "C05_detect_full_rerun (hence, under FpInj, the task reruns), C05_undelimited_fixed / C05_undelimited_two_files_fixed (the former "
+                      "counterexamples: file ab=c against file a=bc, a byte moving between a content and the next file's name), "
+                      "C05_counterexample_undelimited_historical / C05_stream_alone_not_injective (the stream alone, all that was hashed before the fix), "
+                      "C05_detect_checksum / C05_detect_partial (edit/add/remove change the stream itself), C05_detect_move / C05_detect_move_op (the hashed "
+                      "name is the path relative to the task dir, injective on matched paths), C05_mtime, "
                       "C05_idem_timestamp_status_counterexample (timestamp idempotence without the status side condition). Tie: "
-                      "fingerprint.Globs run in-process on random trees and glob/exclude lists; CLI histories with file operations between runs.",
-        "level_note": "Trusted: Lean kernel; harness; glob expansion oracle; hash uninterpreted (HashInj explicit).",
+                      "fingerprint.Globs run in-process on random trees and glob/exclude lists; Gen.FingerOrder incl. checksumFeed (what is fed to which "
+                      "hasher, in which order); CLI histories with file operations between runs, incl. a directed stream of boundary-shift pairs (a rename "
+                      "plus an edit that moves bytes between a name and the neighbouring content); the monitor 'skipped although the commands were never "
+                      "attempted on the present list of (path, content)' on the real observations.",
+        "level_note": "Trusted: Lean kernel; harness; glob expansion oracle; hashes uninterpreted (FpInj explicit).",
     },
     "C12": {
         "lean": "Props.C12",
@@ -398,18 +435,34 @@ PROPS["C16"] = {
     "level_note": "Trusted: Lean kernel; extractor; third-party parsers; harness worker supervision.",
 }
 PROPS["C18"] = {
-    "lean": "Props.C18", "domains": [{"name": "race"}], "race": True,
-    "trusted": ["phase and confinement classification in extract2/classify.go (which functions run only while the program is single-threaded, which "
-                "objects are fresh per call / per command) — validated by the race-detector runs, not proved; syntactic, intraprocedural lockset "
-                "(a mutex counts as held from its Lock() statement to Unlock(), path-insensitive except for blocks that return)"],
-    "assumptions": ["partial by scope: a discipline proof over the extracted abstraction, not the Go memory model; third-party code and accesses through "
-                    "closures/interfaces are not in the table; the race search is bounded by the workloads of domain `race`"],
-    "level_text": "Theorem (decide over the regenerated access table): any two run-phase accesses to one non-confined field of which one is a write hold a "
-                  "common mutex, or the field is ordered by the done channel (C01_shared gives that order); every such write is under a mutex; the loop "
-                  "definition (rows included) is copied before matrix refs are resolved. Tie/search: the harness is built with -race and runs concurrent "
-                  "workloads (matrix refs from parallel deps, prefixed/group output, dynamic vars, dedup, includes, --parallel); a race report is a "
-                  "violation with the report as replay.",
-    "level_note": "Trusted: Lean kernel; typed extractor and its classification; Go race detector for the search half.",
+    "lean": "Props.C18", "domains": [{"name": "race", "timeout": 5400}], "race": True, "cli_race": "always",
+    "trusted": ["static call graph of extract2/callgraph.go (go/types: direct and method calls, interface calls resolved to every implementing method of "
+                "the module, function values counted as called where they are taken, concrete values converted to an interface give their methods to the "
+                "converting function); what it cannot see — reflection on fields of a converted value, unsafe, linkname, cgo — is trusted absent. The NAME-based "
+                "phase classification of extract2/classify.go is no longer trusted: it is a claim checked against that graph (setup_edges_reviewed, "
+                "no_setup_function_in_run_phase; three reviewed edges with written reasons); the confined-type list is checked by a syntactic escape search "
+                "(confined_no_escape) and the 'fresh copy' bases by copy / aliasing facts (compiled_task_holds_copies, copiers_return_fresh); what stays a "
+                "reviewed statement: the (function, base) confinement pairs of isConfinedBase and that a per-call object reached through a parameter is not "
+                "shared by the caller",
+                "syntactic, intraprocedural lockset (a mutex counts as held from its Lock() statement to Unlock(), path-insensitive except for blocks that "
+                "return); the thread model of TaskModel.Race.Threads abstracts goroutines to straight-line sequences of lock / unlock / access / close / recv"],
+    "assumptions": ["partial by scope: the all-schedules theorem is about the extracted abstraction (field-granular locations, straight-line bodies, sync.Mutex and "
+                    "one closed `done` channel), not the Go memory model; third-party code and accesses through closures/interfaces are not in the table; the race "
+                    "search is bounded by the generated workloads of domain `race` and by the schedules that happen (perturbed by seeded delays at the hook points)"],
+    "level_text": "Theorems. (1) C18_no_race_state / C18_chan_ordered (TaskModel.Race.Threads): in a model of any number of threads running sequences of "
+                  "lock / unlock / access / close / recv under mutex and channel semantics, if every two conflicting access positions share a statically held "
+                  "mutex (heldAt: locked and not yet unlocked — the extractor's rule) or are ordered by the close of a channel, then NO state reachable by any "
+                  "interleaving of any length has two threads at conflicting accesses (invariant: m in heldAt t <-> owner m = t). (2) C18_lockset (decide over "
+                  "the regenerated access table) + C18_no_race_state_table / C18_no_race_state_rows: the table of the current tree keeps that discipline, so any "
+                  "program whose access positions are its rows — in particular any number of threads running the critical sections of any rows — has no race "
+                  "state. (3) Obligations that tie the table's inputs to the source: setup_edges_reviewed and no_setup_function_in_run_phase (call graph vs. "
+                  "phase claims: a lazily initialised field shows as a new edge and its accesses enter the table), confined_no_escape, copiers_return_fresh, "
+                  "compiled_task_holds_copies, chanSync_is / chanSync_ordered (the done-channel exemption is computed from ordering facts about startExecution), "
+                  "C18_matrix_rows_private. Tie/search: a seeded generator composes Taskfiles from ~40 features (unknown names, fingerprints, shared dirs, sh: "
+                  "vars, dotenv, wildcards, aliases, prefixes, defers, run: once incl. cycles, includes, matrices, flags) so that >= 2 activations touching the "
+                  "same structure run concurrently, under GOMAXPROCS 1..16 and concurrency limits 0..N; every workload runs in a worker process under the race "
+                  "detector, in-process with seeded delays (-tags verif) and through the -race CLI (no tag); a report is a violation whose replay is the workload.",
+    "level_note": "Trusted: Lean kernel; typed extractor incl. its call-graph construction and lockset rules; Go race detector for the search half.",
 }
 
 
@@ -469,7 +522,7 @@ def _c11_env_cache(m):
             for d in l:
                 if d["name"] not in tainted and any(("{{.%s}}" % t) in d["text"] or (d["kind"] in ("ref", "envsh") and d["text"] == t) for t in tainted):
                     tainted.add(d["name"]); changed = True
-    pool = ["VA", "VB", "VC", "VD", "VE", "VF", "VG"]
+    pool = ["VA", "VB", "VC", "VD", "VE", "VF", "VG", "TASK_DIR", "TASK"]  # = vPool of harness/vars.go (the answer has one value per name)
     a, b = m["impl"].split(), m["model"].split()
     if len(a) != len(b) or len(a) != len(pool):
         return False
@@ -523,15 +576,6 @@ def _same_key(m, f):
     return da != db and _norm(da) == _norm(db)
 
 
-def _same_display(m, f):
-    """method checksum: different tasks with the SAME display name (equal labels, or a label equal to the other's name)"""
-    ab = _writer_pair(m, f)
-    if not ab or f.get("method") != "checksum":
-        return False
-    a, b = ab
-    return (a.get("label") or a["name"]) == (b.get("label") or b["name"])
-
-
 def _gen_vouches(f):
     """method timestamp: before the check an existing generates file was at least as new as every source (vouch=gen), or the
     marker that vouched had been CREATED by an invocation that itself reported "up to date" (wskip=1)"""
@@ -577,8 +621,8 @@ FINDING_PREDICATES.update({
                                                      _gen_vouches(f)),
     # the stored fingerprint was written by a different task whose name normalises to the same file name (FIXED by fix N) …
     "C04-normalised-name-collision": _c04(_same_key),
-    # … or, still open, by a different checksum task with the same display name (label)
-    "C04-equal-label-collision": _c04(_same_display),
+    # (… or by a different checksum task with the same display name (label): FIXED by fix F8A, the checksum file is a function of
+    # task name AND label; no predicate: such a skip is a violation again)
     # method timestamp, last run fine, but a generates pattern matches nothing (FIXED by TS1)
     "C04-timestamp-missing-generates": _c04(lambda m, f: f.get("method") == "timestamp" and f.get("gens") == "0" and f.get("laexit") == "ok"),
     # method timestamp, the commands never ran: the generates' mtimes alone decided (no marker), or the marker a check created
